@@ -1,5 +1,6 @@
 ENGINES = [
-    {"name": "E1-symreal", "path": "engine/symreal", "serves_properties": ["C01", "C03", "C04", "C05", "C06"], "kind_free_text": "symbolic execution of the unmodified formak Python on z3-backed reals (operator overloading + numpy shim, DART-style path exploration with solver pruning)"},
+    {"name": "E1-symreal", "path": "engine/symreal", "serves_properties": ["C01", "C03", "C04", "C05", "C06", "C07", "C08", "C10", "C11"], "kind_free_text": "symbolic execution of the unmodified formak Python on z3-backed reals (operator overloading + numpy shim, DART-style path exploration with solver pruning)"},
+    {"name": "E2-vsym", "path": "engine/vsym", "serves_properties": ["C02", "C06", "C07", "C08", "C10", "C11", "C12"], "kind_free_text": "symbolic execution of the real generated C++ / ManagedFilter.h / innovation_filtering.h: compiled by g++ with `double` replaced by a DAG-building scalar, stand-in Eigen/Dense, fork(2) at every symbolic branch, leaves emitted as SMT-LIB and loaded into z3"},
 ]
 NOTES = "Solver-based checking (z3 5.1) of the real code; see DESIGN.md. Exit codes: 0 ok, 1 violation, 2 harness error/inconclusive machinery."
 NA["C14"] = "structural accept/reject over sets/dicts of sympy objects: the only symbolic treatment is forking on every membership bit, i.e. enumeration of concrete definitions with the solver as bystander (DESIGN 11)"
@@ -26,3 +27,28 @@ chk("C06", "translation_validation",
     "Decision equivalence as validity queries: remove_innovation's returned condition, and the reject-leaf path condition of sensor_model, are equivalent to z'S^-1 z > k*sqrt(2m)+m for all k>0, z, S^-1 (m=1..3, thorough up to 8); reject returns the input objects with unchanged terms and records z-h; disabled filtering has no reject path. C++ side joins when E2 is built.",
     "sqrt(2m) is the exact rational of the double the code computes; everything else over reals.",
     "symbolic execution (path conditions) + SMT validity of decision equivalence", "E1-symreal", "5/C06")
+
+chk("C02", "translation_validation",
+    "The C++ header+source generated from the current tree are compiled (g++ -std=c++17) and executed with double replaced by a symbolic scalar; every output of Model::model, ProcessModel::model/process_jacobian/control_jacobian/covariance and each <Reading>SensorModel::model/jacobian/covariance, read through named accessors, is proved equal for ALL inputs to the symbolic expression, the harness-differentiated partial derivative or the configured noise entry; four control x calibration combinations, CSE on/off, sensors of 1..3 readings; unassigned entries appear as poison variables.",
+    "Stand-in Eigen/Dense; the 'compiles' clause is decided by the compiler on plain double, not by SMT; noise values are concrete (they are printed into the source).",
+    "symbolic execution of the compiled generated C++ (scalar substitution) + SMT equivalence", "E2-vsym", "5/C02")
+chk("C07", "translation_validation",
+    "The same model is run through the real Python filter and the generated C++ filter with inputs bound by name to the same z3 variables: prediction, per-sensor update on matched accept/reject paths (path conditions proved equivalent, inverse arguments proved equal and shared as cut-points), stored innovations read back after all sensors were updated, named covariance accessors; all proved equal for all inputs.",
+    "Inverse as shared cut-point; Python validity gates assumed; stand-in Eigen.",
+    "cross-language symbolic execution + SMT equivalence", "E1-symreal + E2-vsym", "5/C07")
+chk("C08", "translation_validation",
+    "Every BasicBlock-backed output of the Python backend and every generated C++ function is executed symbolically with CSE on and off; on == off proved per output for all inputs (no specification needed). Single-assignment / def-before-use of temporaries: compiler + text scan + poison variables (C++), execution (Python).",
+    "Program dimension bounded by the corpus (P7 built for nested sharing; vacuity check that temporaries exist).",
+    "differential symbolic execution (CSE on vs off) + SMT equivalence", "E1-symreal + E2-vsym", "5/C08")
+chk("C10", "other",
+    "The real Python tick/_process_model (symbolic held time, target time AND max_dt) and the real C++ tick/processUpdate (symbolic times, enumerated max_dt constants, all four control x calibration overload combinations) run with a recording filter; every feasible path within K full steps is explored and per leaf z3 proves direction, |step| <= max_dt, |sum - delta| <= 1e-9, and no step for equal times. Held time symbolic => one tick covers any tick sequence.",
+    "Bounded: |delta| < (K+1)*max_dt (K=2 quick, 4 thorough); reals for doubles.",
+    "bounded symbolic path exploration of the real runtimes + SMT validity per leaf", "E1-symreal + E2-vsym", "5/C10")
+chk("C11", "other",
+    "The real Python and C++ tick run with a filter whose process/sensor models are uninterpreted functions (the result term is the call trace) on symbolic timestamps in any order; per feasible leaf the returned estimate and the held (time, state, covariance) are proved equal to a reference fold written from the statement; no-readings tick leaves the held triple term-identical; control=None raises TypeError on every path (C++: negative compilation test of the static_assert).",
+    "Bounded: readings per tick <= 2/3, full steps per propagation <= 1-3; `#define private public` in the harness TU to read the C++ held state.",
+    "bounded symbolic path exploration with uninterpreted filter functions + SMT equivalence to a reference fold", "E1-symreal + E2-vsym", "5/C11")
+chk("C12", "other",
+    "For control x calibration x {0,1,2 sensors} the generated filter is instantiated in the real ManagedFilter.h (static_assert compatible, every applicable tick overload, wrap + virtual dispatch), ticked on symbolic values along concrete time schedules, and compared with process_model/sensor_model called by hand in the order C11 specifies: all named outputs and the held state equal (term identity after identifying inverse cut-points, else z3). The 'compiles' clause is decided by g++.",
+    "Timestamps concrete here (symbolic in C10/C11); stand-in Eigen; compile clause by compiler not SMT.",
+    "symbolic execution of generated filter under the real managed runtime + term/SMT equivalence; compiler for the compile clause", "E2-vsym", "5/C12")
